@@ -15,7 +15,7 @@ from fiddle._src.experimental import serialization
 from harness import common, l2, c02
 from harness.common import Failure, Result, Stream, g_list, g_pair, g_N
 
-COQ_TARGETS = ["theories/C14Check.vo", "theories/Anchors.vo"]
+COQ_TARGETS = ["theories/C14Check.vo"]
 TRUSTED_BASE = ["Python's issubclass on Tag classes (supplied to the model as a table)"]
 ASSUMPTIONS = ["the value handed to set_tagged is a leaf or a structure without tagged arguments and is not a "
                "TaggedValue (otherwise the lazy traversal descends into it: a different graph)"]
